@@ -434,6 +434,10 @@ def run(ctx):
     rule_attach_detach(ctx)
     rule_reinject(ctx)
     rule_resume_before_return(ctx)
+    # resume_threads / Drop detach exactly the threads that are LISTED: the list may only be edited by the attach filter
+    # (same rule instance as C04/thread-list-mutators)
+    from rules import c04
+    c04.rule_thread_list_mutators(ctx, R="C03/thread-list-mutators")
 
 
 def thorough(ctx):
